@@ -6,7 +6,7 @@ From Coq Require Import List ZArith QArith Lia Bool Permutation.
 From PV Require Import lib.Sx lib.Str lib.Result model.GenScc model.SccLen model.SccTime model.SccStash model.SccDecoder model.SccPopon
                        model.SccTokenise.
 From PV Require Import spec.Spec608 spec.SpecScc05 spec.SpecScc05Inline spec.SpecSccTime.
-From PV Require Import proofs.SccPoponFacts proofs.SccPoponStage1 proofs.SccPoponStage3 proofs.SccPoponStage4 proofs.SccPoponStage6 proofs.SccPoponStage7
+From PV Require Import proofs.SccTimeFacts proofs.SccPoponFacts proofs.SccPoponStage1 proofs.SccPoponStage3 proofs.SccPoponStage4 proofs.SccPoponStage6 proofs.SccPoponStage7
                        proofs.SccPoponStage8 proofs.SccPoponStage9 proofs.SccLineLayoutFacts proofs.SccTokeniseFacts proofs.SccTextFacts
                        proofs.SccOrderFacts proofs.SccInlineEdmFacts.
 Import ListNotations.
@@ -142,4 +142,60 @@ Qed.
 Example writer_row_instance : row_ok (mkRow 15 0 0 16 (map Ch [72; 105; 32; 116; 104; 101; 114; 101])) = true.
 Proof.
   apply writer_row_ok; [lia|left; reflexivity|vm_compute; reflexivity|discriminate|cbn [hd]; lia|cbn [last]; lia|cbn [length]; lia].
+Qed.
+
+(* audit (wave 7): the remaining hypotheses of popon_refines_608_inline on the instance exw_ws *)
+Example exw_event_hyps : exists evs spans,
+  res_map (pseg_event true 0) (wexpand exw_ws) = Ok evs /\ positive evs /\ after_show None evs /\
+  expected_with join_threshold evs = Ok spans.
+Proof.
+  eexists. eexists. split; [vm_compute; reflexivity|]. split; [|split].
+  - intros e H. repeat (destruct H as [<-|H]; [vm_compute; reflexivity|]). destruct H.
+  - cbn [after_show ev_time]. repeat split; try exact I; vm_compute; reflexivity.
+  - vm_compute. reflexivity.
+Qed.
+
+(* ---- audit (wave 7): the display instants of a writer-style line ARE the statement's instants of its EDM / EOC words ------ *)
+Ltac Zify.zify_post_hook ::= Z.to_euclidean_division_equations.
+
+Lemma tc_shift_wf : forall t n, tc_wf t = true -> 0 <= n -> tc_total t + n < 10800000 -> tc_wf (tc_shift t n) = true.
+Proof.
+  intros t n W Hn Hb. assert (H0 : 0 <= tc_total t) by (unfold tc_total, tc_wf in *; lia).
+  unfold tc_wf, tc_shift. cbn [tc_h tc_m tc_s tc_f tc_drop]. generalize dependent (tc_total t). intros T HT HT0. lia.
+Qed.
+
+(* the statement's instant of the k-th word after the canonical timecode n frames later = its instant of word n + k *)
+Theorem spec_instant_shift : forall t n k off, tc_wf t = true -> 0 <= n -> 0 <= k -> tc_total t + n < 10800000 ->
+  (spec_instant (tc_shift t n) k off == spec_instant t (n + k) off)%Q.
+Proof.
+  intros t n k off W Hn Hk Hb.
+  destruct (get_time_exact (tc_shift t n) k off (tc_shift_wf t n W Hn Hb) Hk) as (t1 & E1 & Q1).
+  destruct (get_time_exact t (n + k) off W ltac:(lia)) as (t2 & E2 & Q2).
+  pose proof (same_clock_shift off t n W Hn Hb k Hk) as S. rewrite E1, E2 in S. injection S as ->.
+  rewrite <- Q1, <- Q2. reflexivity.
+Qed.
+
+(* the two display events of the writer-style line `winline d t l`: Clear at the statement's instant of its (first) EDM word,
+   Show at the statement's instant of its (first) EOC word *)
+Theorem winline_events_spec : forall d t l off, tc_wf t = true ->
+  tc_total t + Z.of_nat (length (load_body d l)) + 2 < 10800000 ->
+  exists t1 t2,
+    res_map (pseg_event d off) (wseg_expand (winline d t l)) = Ok [Clear t1; Show t2] /\
+    (t1 == spec_instant t (Z.of_nat (length (load_body d l))) off)%Q /\
+    (t2 == spec_instant t (Z.of_nat (length (emit_load_w d l)) - (if d then 2 else 1)) off)%Q.
+Proof.
+  intros d t l off W Hb. set (nE := Z.of_nat (length (load_body d l))) in *. set (e := if d then 2 else 1).
+  assert (He : 0 <= e <= 2) by (unfold e; destruct d; lia).
+  assert (HnE : 0 <= nE) by (unfold nE; lia).
+  destruct (get_time_exact (tc_shift t nE) 0 off (tc_shift_wf t nE W HnE ltac:(lia)) (Z.le_refl 0)) as (t1 & E1 & Q1).
+  assert (Hlen : Z.of_nat (length (emit_load d l)) - e = nE).
+  { unfold emit_load, nE, load_body, e. rewrite !app_length, !Nat2Z.inj_add. destruct d; cbn [ctl length]; lia. }
+  assert (Hlenw : Z.of_nat (length (emit_load_w d l)) - e = nE + e).
+  { unfold emit_load_w, nE, e. rewrite !app_length, !Nat2Z.inj_add. destruct d; cbn [ctl length]; lia. }
+  destruct (get_time_exact (tc_shift t e) nE off (tc_shift_wf t e W (proj1 He) ltac:(lia)) HnE) as (t2 & E2 & Q2).
+  exists t1, t2. split; [|split].
+  - unfold winline, wseg_expand. cbn [res_map pseg_event]. fold nE. fold e. rewrite E1. cbn [bind]. rewrite Hlen, E2. reflexivity.
+  - rewrite Q1. rewrite (spec_instant_shift t nE 0 off W HnE (Z.le_refl 0) ltac:(lia)). rewrite Z.add_0_r. reflexivity.
+  - rewrite Q2. rewrite (spec_instant_shift t e nE off W (proj1 He) HnE ltac:(lia)). fold e. rewrite Hlenw.
+    replace (e + nE) with (nE + e) by lia. reflexivity.
 Qed.
